@@ -11,6 +11,7 @@
   Everything here is over an arbitrary commutative ring (no analysis).
 -/
 import EmuVerif.Props.C05
+import EmuVerif.Proofs.Perm
 import Mathlib.LinearAlgebra.Matrix.Permutation
 import Mathlib.LinearAlgebra.Matrix.Reindex
 
@@ -322,5 +323,96 @@ theorem HFin_conj (σ : Equiv.Perm (Fin N)) (K : ℕ) (c : α) (op : ℕ → Mat
     · rfl
 
 end ham
+
+/-! ### index lists as permutations of `Fin N`; the gather on `List.ofFn` -/
+section lists
+open EmuVerif.Perm
+variable {β : Type}
+
+/-- the permutation of `Fin N` listed by `p`: `σ k = p[k]` (site `k` holds atom `p[k]`) -/
+noncomputable def permOf {N : ℕ} {p : List ℕ} (h : IsPerm N p) : Equiv.Perm (Fin N) :=
+  Equiv.ofBijective (fun k => ⟨p[k.1]'(by rw [h.1]; exact k.2), h.2.1 _ (List.getElem_mem _)⟩) (by
+    apply Finite.injective_iff_bijective.mp
+    intro a b hab
+    have hab' := congrArg Fin.val hab
+    simp only at hab'
+    exact Fin.ext ((h.2.2.getElem_inj_iff).mp hab'))
+
+theorem getElem?_permOf {N : ℕ} {p : List ℕ} (h : IsPerm N p) (k : Fin N) :
+    p[k.val]? = some (permOf h k).val := by
+  have hk : k.val < p.length := by rw [h.1]; exact k.2
+  rw [List.getElem?_eq_getElem hk]
+  rfl
+
+theorem getElem?_gatherT_fin {N : ℕ} {p : List ℕ} (h : IsPerm N p) {xs : List β} (hx : N ≤ xs.length)
+    (k : Fin N) : (gatherT xs p)[k.val]? = xs[(permOf h k).val]? := by
+  rw [getElem?_gatherT (fun i hi => lt_of_lt_of_le (h.2.1 i hi) hx), getElem?_permOf h k]
+  rfl
+
+theorem getD_gatherT {N : ℕ} {p : List ℕ} (h : IsPerm N p) {xs : List β} (hx : N ≤ xs.length)
+    (k : Fin N) (dflt : β) : (gatherT xs p).getD k.val dflt = xs.getD (permOf h k).val dflt := by
+  rw [List.getD_eq_getElem?_getD, List.getD_eq_getElem?_getD, getElem?_gatherT_fin h hx]
+
+theorem length_gatherT_of_le {N : ℕ} {p : List ℕ} (h : IsPerm N p) {xs : List β} (hx : N ≤ xs.length) :
+    (gatherT xs p).length = N := by
+  rw [length_gatherT (fun i hi => lt_of_lt_of_le (h.2.1 i hi) hx), h.1]
+
+theorem length_filterMap_lt {γ δ : Type} (f : γ → Option δ) :
+    ∀ (l : List γ), (∃ a ∈ l, f a = none) → (l.filterMap f).length < l.length
+  | [], h => by obtain ⟨a, ha, _⟩ := h; simp at ha
+  | a :: l, h => by
+    cases hfa : f a with
+    | none =>
+      rw [List.filterMap_cons_none hfa]
+      exact Nat.lt_succ_of_le (List.length_filterMap_le f l)
+    | some b =>
+      rw [List.filterMap_cons_some hfa]
+      obtain ⟨x, hx, hfx⟩ := h
+      rcases List.mem_cons.mp hx with e | hx'
+      · subst e; rw [hfa] at hfx; exact absurd hfx (by simp)
+      · simp only [List.length_cons]
+        exact Nat.succ_lt_succ (length_filterMap_lt f l ⟨x, hx', hfx⟩)
+
+theorem length_gatherT_lt {N : ℕ} {p : List ℕ} (h : IsPerm N p) {xs : List β} (hx : xs.length < N) :
+    (gatherT xs p).length < N := by
+  rw [gatherT_eq]
+  have := length_filterMap_lt (fun i => xs[i]?) p ⟨xs.length, h.mem hx, by simp⟩
+  rwa [h.1] at this
+
+/-- a list has an entry for every atom iff its gather has one for every site -/
+theorem le_length_gatherT_iff {N : ℕ} {p : List ℕ} (h : IsPerm N p) {xs : List β} :
+    N ≤ (gatherT xs p).length ↔ N ≤ xs.length := by
+  constructor
+  · intro hle
+    by_contra hcon
+    exact absurd hle (not_le.mpr (length_gatherT_lt h (not_le.mp hcon)))
+  · intro hle
+    rw [length_gatherT_of_le h hle]
+
+/-- **gathering a tabulated function by `p` tabulates the function composed with `σ_p`** -/
+theorem gatherT_ofFn {N : ℕ} {p : List ℕ} (h : IsPerm N p) (f : Fin N → β) :
+    gatherT (List.ofFn f) p = List.ofFn (fun k => f (permOf h k)) := by
+  apply List.ext_getElem?
+  intro k
+  by_cases hk : k < N
+  · have := getElem?_gatherT_fin h (xs := List.ofFn f) (by simp) ⟨k, hk⟩
+    simp only at this
+    rw [this]
+    simp [hk]
+  · have h1 : (gatherT (List.ofFn f) p).length = N := length_gatherT_of_le h (by simp)
+    rw [List.getElem?_eq_none (by rw [h1]; exact not_lt.mp hk),
+      List.getElem?_eq_none (by simpa using not_lt.mp hk)]
+
+/-- the same for tabulated square matrices: `permute_tensor(M, p)[a][b] = M[p[a]][p[b]]` -/
+theorem permuteMatT_ofFn {N : ℕ} {p : List ℕ} (h : IsPerm N p) (g : Fin N → Fin N → β) :
+    permuteMatT (List.ofFn (fun i => List.ofFn (g i))) p
+      = List.ofFn (fun i => List.ofFn (fun j => g (permOf h i) (permOf h j))) := by
+  unfold Perm.permuteMatT
+  rw [gatherT_ofFn h, List.map_ofFn]
+  congr 1
+  funext i
+  exact gatherT_ofFn h _
+
+end lists
 
 end EmuVerif.PermEquiv
